@@ -171,3 +171,31 @@ def _pers_shape(prog):
 
 # canaries/engine: a buffer rebound to a keepdim statistic (bad) / to a statistic of its own rank (good)
 canary.register("C15", "engine", _pers_shape, "PERS-SHAPE")
+
+
+def _grad_ident(prog):
+    from .rules.c16 import grad_ident_rule
+
+    class Ctx:
+        p = prog
+        grad_ident_floor = 1
+
+    return grad_ident_rule(Ctx()).findings
+
+
+# canaries/engine: a training-mode helper that rebinds a registered parameter (bad) / writes its .data (good)
+canary.register("C16", "engine", _grad_ident, "GRAD-IDENT")
+
+
+def _saturate(prog):
+    from .rules.c19 import saturate_rule
+
+    class Ctx:
+        p = prog
+        saturate_floor = 1
+
+    return saturate_rule(Ctx()).findings
+
+
+# canaries/engine: log1p(-sigmoid(z)) (bad) / -softplus(z) (good)
+canary.register("C19", "engine", _saturate, "NUM-SATURATE")
